@@ -9,31 +9,43 @@ func VerifC06Include() {
 	root := vrtRoot()
 	w := root + "/w"
 	v := "x" + vrtString("v", vrtParam("VL", 1), "ab")
+	// the included file lives below the project directory, or in a sibling directory whose name starts
+	// with the project directory's name
+	subRel := []string{"sub", "../w-sib"}[vrtChoice("includedDir", 2)]
+	subAbs := w + "/sub"
+	if subRel != "sub" {
+		subAbs = root + "/w-sib"
+	}
 	// included project: sub/inc.yaml
 	inc := map[string]any{
 		"services": map[string]any{
 			"inc": map[string]any{"image": "img-${TAG:-none}-${ONLYSUB:-none}", "build": map[string]any{"context": "./ctx" + v},
 				"env_file": []any{"./svc.env"}, "volumes": []any{"./data:/data", "named:/n"}},
+			// path attributes written as mappings inside sequences, inherited through a same-file extends
+			"lbase": map[string]any{"image": "l", "env_file": []any{map[string]any{"path": "./l.env", "required": false}},
+				"volumes": []any{map[string]any{"type": "bind", "source": "./ldata", "target": "/l"}},
+				"develop": map[string]any{"watch": []any{map[string]any{"path": "./src", "action": "sync", "target": "/src"}}}},
+			"lkid": map[string]any{"extends": map[string]any{"service": "lbase"}},
 		},
 		"networks": map[string]any{"incnet": nil},
 		"volumes":  map[string]any{"named": nil},
 		"secrets":  map[string]any{"incsec": map[string]any{"file": "./sec.txt"}},
 		"configs":  map[string]any{"inccfg": map[string]any{"file": "./cfg.txt"}},
 	}
-	vrtYamlFile(w+"/sub/inc.yaml", inc)
+	vrtYamlFile(subAbs+"/inc.yaml", inc)
 	// .env of the included project: TAG also defined by the parent (parent wins), ONLYSUB only here
 	hasDotEnv := vrtChoice("dotenv", 2) == 1
 	pd := vrtChoice("project_directory", 5)
 	if hasDotEnv {
 		if pd == 1 || pd == 2 {
 			// with an explicit project_directory the .env beside the included file is a decoy
-			vrtFile(w+"/sub/.env", "TAG=decoy\nONLYSUB=decoy\n")
+			vrtFile(subAbs+"/.env", "TAG=decoy\nONLYSUB=decoy\n")
 		} else {
-			vrtFile(w+"/sub/.env", "TAG=fromsub\nONLYSUB=sub"+v+"\n")
+			vrtFile(subAbs+"/.env", "TAG=fromsub\nONLYSUB=sub"+v+"\n")
 		}
 	}
-	long := map[string]any{"path": "sub/inc.yaml"}
-	baseDir := w + "/sub"
+	long := map[string]any{"path": subRel + "/inc.yaml"}
+	baseDir := subAbs
 	switch pd {
 	case 1: // relative project_directory
 		long["project_directory"] = "pd"
@@ -52,16 +64,16 @@ func VerifC06Include() {
 	}
 	var include any = []any{long}
 	if pd == 3 {
-		include = []any{"sub/inc.yaml"} // short syntax
+		include = []any{subRel + "/inc.yaml"} // short syntax
 	}
 	chain := false
 	if pd == 4 {
 		// explicit env_file list: the second file derives a value from a variable that the parent
 		// environment and the first file both define (the parent's value must be used)
 		chain = true
-		long["env_file"] = []any{"sub/e1.env", "sub/e2.env"}
-		vrtFile(w+"/sub/e1.env", "TAG=frome1\n")
-		vrtFile(w+"/sub/e2.env", "ONLYSUB=d-${TAG}\n")
+		long["env_file"] = []any{subRel + "/e1.env", subRel + "/e2.env"}
+		vrtFile(subAbs+"/e1.env", "TAG=frome1\n")
+		vrtFile(subAbs+"/e2.env", "ONLYSUB=d-${TAG}\n")
 	}
 	parentTag := vrtChoice("parentDefinesTAG", 2) == 1
 	env := types.Mapping{}
@@ -119,6 +131,20 @@ func VerifC06Include() {
 	vols, _ := s["volumes"].([]any)
 	vrtAssert("included-bind-anchored", len(vols) == 2 && vols[0].(map[string]any)["source"] == any(baseDir+"/data"))
 	vrtAssert("included-named-volume-untouched", len(vols) == 2 && vols[1].(map[string]any)["source"] == any("named"))
+	for _, n := range []string{"lbase", "lkid"} {
+		ls := tcSvc(m, n)
+		vrtAssert("included-extends-pair-present", ls != nil)
+		if ls == nil {
+			continue
+		}
+		lef, _ := ls["env_file"].([]any)
+		vrtAssert("included-long-env-file-anchored-once", len(lef) == 1 && lef[0].(map[string]any)["path"] == any(baseDir+"/l.env"))
+		lv, _ := ls["volumes"].([]any)
+		vrtAssert("included-long-bind-anchored-once", len(lv) == 1 && lv[0].(map[string]any)["source"] == any(baseDir+"/ldata"))
+		dv, _ := ls["develop"].(map[string]any)
+		lw, _ := dv["watch"].([]any)
+		vrtAssert("included-watch-path-anchored-once", len(lw) == 1 && lw[0].(map[string]any)["path"] == any(baseDir+"/src"))
+	}
 	sec, _ := m["secrets"].(map[string]any)["incsec"].(map[string]any)
 	vrtAssert("included-secret-file-anchored", sec["file"] == any(baseDir+"/sec.txt"))
 	cfg, _ := m["configs"].(map[string]any)["inccfg"].(map[string]any)
